@@ -212,13 +212,22 @@ impl Check for C20 {
         Some("all cyclic repetitions up to 90 characters of all units of <= 3 characters over a 4-character alphabet x listed widths x listed seconds; all count vectors {0..6}^6 x 5 bar sizes".into())
     }
     fn parts(&self, tier: Tier) -> Vec<Part> {
-        vec![Part { name: "enum", kind: PartKind::Enum { units: 84 + 5 } }, Part { name: "random", kind: PartKind::Random { cases: tier.pick(100_000, 2_000_000), main: 450, ops: 0, oplen: 0, sched: 0 } }]
+        vec![
+            Part { name: "enum", kind: PartKind::Enum { units: 84 + 5 } },
+            Part { name: "random", kind: PartKind::Random { cases: tier.pick(100_000, 2_000_000), main: 450, ops: 0, oplen: 0, sched: 0 } },
+            Part { name: "pty", kind: PartKind::Random { cases: tier.pick(16, 160), main: 200, ops: 0, oplen: 0, sched: 0 } },
+            Part { name: "pty-long", kind: PartKind::Random { cases: tier.pick(0, 16), main: 200, ops: 0, oplen: 0, sched: 0 } },
+        ]
     }
     fn run_unit(&mut self, _part: &str, u: u64, env: &mut Env) -> CaseOut {
         self.unit(u, env.tier)
     }
-    fn run_random(&mut self, _part: &str, case: &Case, _env: &mut Env) -> CaseOut {
-        self.random(case)
+    fn run_random(&mut self, part: &str, case: &Case, env: &mut Env) -> CaseOut {
+        match part {
+            "pty" => crate::bb::pty::run_pty_case(case, env, false),
+            "pty-long" => crate::bb::pty::run_pty_case(case, env, true),
+            _ => self.random(case),
+        }
     }
     fn run_replay(&mut self, _part: &str, replay: &Value, _env: &mut Env) -> CaseOut {
         let mut out = CaseOut { evals: 1, ..Default::default() };
